@@ -206,7 +206,7 @@ static void p1_run(uint64_t idx, vh_rng_t * rng) {
 #else
     uint32_t hi = (uint32_t) idx << 16, lo; int b;
     vh_case_desc("32-bit sweep block hi=0x%04x", (unsigned) idx);
-    if (vh_args.thorough) {
+    if (vh_args.thorough && (VH_FLAVOUR_DEFAULT || (idx & 31) == 7)) { /* all 2^32 values in the default flavour, every 32nd block of 65536 in the others */
         for (lo = 0; lo < 65536; lo++) {
             uint32_t v = hi | lo; vh_sub = v;
             int_case(K_I32, v, 10); int_case(K_U32, v, 10); int_case(K_U32, v, 16);
